@@ -266,9 +266,9 @@ func emitRt(c *Ctx, tree interface{}) {
 		}
 		v, err := bencode.Unmarshal(got)
 		if err != nil {
-			return "same=0 len=1 self=1 (unmarshal: " + strings.ReplaceAll(err.Error(), " ", "_") + ")"
+			return "same=0 len=1 self=1 sorted=? (unmarshal: " + strings.ReplaceAll(err.Error(), " ", "_") + ")"
 		}
-		return "same=" + b01(canonB(plain(v)) == canonB(tree)) + " len=" + b01(len(got) == len(ref)) + " self=1"
+		return "same=" + b01(canonB(plain(v)) == canonB(tree)) + " len=" + b01(len(got) == len(ref)) + " self=1 sorted=" + b01(string(got) == string(ref))
 	}()
 	c.Kind(fmt.Sprintf("rt.depth%d", treeDepth(tree)))
 	c.Emit("benc.rt ref="+hx(ref)+" got="+hx(got), obs)
